@@ -173,11 +173,19 @@ func (t *termer) catParts(b *ssa.BinOp, d int) []string {
 }
 
 func (t *termer) sprintf(c *ssa.Call, d int) (string, bool) {
-	format, ok := constString(c.Common().Args[0])
+	// fmt.Fprintf(w, format, …): the same text, formatted straight into the writer
+	off := 0
+	if calleeFullName(c.Common()) == "fmt.Fprintf" {
+		off = 1
+	}
+	if len(c.Common().Args) < off+2 {
+		return "", false
+	}
+	format, ok := constString(c.Common().Args[off])
 	if !ok {
 		return "", false
 	}
-	elems, ok := variadicElems(c.Common().Args[1])
+	elems, ok := variadicElems(c.Common().Args[off+1])
 	if !ok {
 		return "", false
 	}
@@ -747,12 +755,15 @@ func ruleSIB3(w *World) []Ob {
 		for _, sf := range scan {
 			allInstrs(sf, func(in ssa.Instruction) {
 				c, ok := in.(*ssa.Call)
-				if !ok || calleeFullName(c.Common()) != "fmt.Sprintf" {
+				if !ok || (calleeFullName(c.Common()) != "fmt.Sprintf" && !(calleeFullName(c.Common()) == "fmt.Fprintf" && isSinkType(c.Common().Args[0].Type()))) {
+					return
+				}
+				t := &termer{p: p}
+				got, _ := t.sprintf(c, 0)
+				if calleeFullName(c.Common()) == "fmt.Fprintf" && !strings.Contains(got, "summary(") {
 					return
 				}
 				found = true
-				t := &termer{p: p}
-				got, _ := t.sprintf(c, 0)
 				got = normaliseReport(got, recvNames(sf, fn)...)
 				want := `cat(spreadBranch(R,ROOT),"\n",summary(R),"\n")`
 				if spec.summary == "" {
